@@ -610,8 +610,12 @@ func checkC11Wiring(p *Prog, r *Report, ru *Rule) {
 			okk := false
 			for _, a := range cc.Args {
 				if lc, ok := a.(*ssa.Call); ok && nil != rl && lc.Common().StaticCallee() == rl {
-					if _, isP := lc.Common().Args[len(lc.Common().Args)-1].(*ssa.Parameter); isP {
-						okk = true
+					/* (of the handler's own request, wherever it stands
+					among the arguments) */
+					for _, la := range lc.Common().Args {
+						if pa, isP := la.(*ssa.Parameter); isP && "*net/http.Request" == pa.Type().String() {
+							okk = true
+						}
 					}
 				}
 			}
@@ -633,6 +637,25 @@ func checkC11Wiring(p *Prog, r *Report, ru *Rule) {
 			if c, ok := i.(*ssa.Call); ok && "(*log/slog.Logger).With" == calleeName(c.Common()) {
 				if fv, _ := loadedField(c.Common().Args[0]); fv == sl {
 					okk = true
+				}
+				/* Or of the logger every caller hands in (a method made a
+				plain function). */
+				if pa, isP := c.Common().Args[0].(*ssa.Parameter); isP {
+					if idx, cs := paramIndex(rl, pa), p.callersOf(rl); idx >= 0 && len(cs) > 0 {
+						all := true
+						for _, ci := range cs {
+							if idx >= len(ci.Common().Args) {
+								all = false
+								continue
+							}
+							if fv, _ := loadedField(ci.Common().Args[idx]); fv != sl {
+								all = false
+							}
+						}
+						if all {
+							okk = true
+						}
+					}
 				}
 			}
 		})
